@@ -99,7 +99,12 @@ class HistoryFamily:
                 t = rng.choice(terms) if terms else ['var', rng.choice(keys)]
                 r = rng.random()
                 vs = sorted(term_keys(t, set()))
-                if r < 0.5 and vs:
+                if r < 0.25 and vs:
+                    # ... or SELECTED next to its variables
+                    cond = g.cond(rng.randint(0, 1))
+                    vs = sorted(set(vs) | gen_query.cond_keys(cond, set()))
+                    sel = [['var', k] for k in vs] + [t]
+                elif r < 0.55 and vs:
                     cond = ['cmp', rng.choice(['==', '!=']), t, ['lit', rng.choice([0, '', None, False, 1, 2])]]
                     sel = [['var', k] for k in vs]
                 else:
